@@ -101,6 +101,58 @@ func pointsOfKinds(n int, kind func(i int) int) pmetric.Metrics {
 	return md
 }
 
+// logsValueless: n log records each carrying only an attribute without value (skipped by the encoder)
+func logsValueless(n int) plog.Logs {
+	ld := plog.NewLogs()
+	sl := ld.ResourceLogs().AppendEmpty().ScopeLogs().AppendEmpty()
+	for i := 0; i < n; i++ {
+		lr := sl.LogRecords().AppendEmpty()
+		lr.Body().SetStr("b")
+		lr.Attributes().PutEmpty("k")
+	}
+	return ld
+}
+
+// spansValueless: n spans each carrying only an attribute without value / with an empty key
+func spansValueless(n int) ptrace.Traces {
+	td := ptrace.NewTraces()
+	ss := td.ResourceSpans().AppendEmpty().ScopeSpans().AppendEmpty()
+	for i := 0; i < n; i++ {
+		sp := ss.Spans().AppendEmpty()
+		sp.SetName("s")
+		if i%2 == 0 {
+			sp.Attributes().PutEmpty("k")
+		} else {
+			sp.Attributes().PutStr("", "v")
+		}
+	}
+	return td
+}
+
+// resourcesValueless: n resources (one span each) whose resource and scope carry only a valueless attribute
+func resourcesValueless(n int) ptrace.Traces {
+	td := ptrace.NewTraces()
+	for i := 0; i < n; i++ {
+		rs := td.ResourceSpans().AppendEmpty()
+		rs.Resource().Attributes().PutEmpty("k")
+		rs.Resource().SetDroppedAttributesCount(uint32(i)) // distinct resources
+		ss := rs.ScopeSpans().AppendEmpty()
+		ss.Scope().Attributes().PutEmpty("k")
+		ss.Spans().AppendEmpty().SetName("s")
+	}
+	return td
+}
+
+func repeatBatches(k int, mk func() any) func() []any {
+	return func() []any {
+		var out []any
+		for i := 0; i < k; i++ {
+			out = append(out, mk())
+		}
+		return out
+	}
+}
+
 func smallTraces() ptrace.Traces { return manySpans(3, true, 1) }
 
 func boundaryCases(tier string) []boundaryCase {
@@ -135,6 +187,13 @@ func boundaryCases(tier string) []boundaryCase {
 		{Name: "one gauge with 70000 data points: attributes / exemplar-only / bare", Batches: func() []any {
 			return []any{pointsOfKinds(70000, func(i int) int { return i % 3 }), pointsOfKinds(70000, func(int) int { return 2 }), pointsOfKinds(70000, func(int) int { return 0 })}
 		}, Expect: []string{"any", "any", "any"}},
+		// per-batch counters must start afresh with every batch: three batches of 25,000 on one stream stay below the id width each
+		{Name: "3 x 25000 log records with a valueless attribute only", Batches: repeatBatches(3, func() any { return logsValueless(25000) }), Expect: []string{"ok", "ok", "ok"}},
+		{Name: "3 x 25000 spans with a valueless / empty-key attribute only", Batches: repeatBatches(3, func() any { return spansValueless(25000) }), Expect: []string{"ok", "ok", "ok"}},
+		{Name: "3 x 25000 attribute-bearing spans", Batches: repeatBatches(3, func() any { return manySpans(25000, true, 1) }), Expect: []string{"ok", "ok", "ok"}},
+		{Name: "3 x 25000 link-only spans", Batches: repeatBatches(3, func() any { return spansOfKinds(25000, func(int) int { return 3 }) }), Expect: []string{"ok", "ok", "ok"}},
+		{Name: "3 x 25000 event-only spans", Batches: repeatBatches(3, func() any { return spansOfKinds(25000, func(int) int { return 2 }) }), Expect: []string{"ok", "ok", "ok"}},
+		{Name: "3 x 23000 resources and scopes with a valueless attribute only", Batches: repeatBatches(3, func() any { return resourcesValueless(23000) }), Expect: []string{"ok", "ok", "ok"}},
 		{Name: "uint8 dictionary limit, one batch with 300 span names x 10 (reset regime)", Options: []cfgpkg.Option{cfgpkg.WithUint8LimitDictIndex()}, Batches: func() []any {
 			td := ptrace.NewTraces()
 			ss := td.ResourceSpans().AppendEmpty().ScopeSpans().AppendEmpty()
